@@ -16,6 +16,7 @@ import (
 	"github.com/go-openapi/runtime"
 	"github.com/go-openapi/runtime/middleware"
 	"github.com/go-openapi/runtime/middleware/untyped"
+	"github.com/go-openapi/runtime/security"
 
 	"verifharness/internal/drv"
 	"verifharness/internal/trace"
@@ -369,7 +370,61 @@ func descriptor(d Desc, regs []Reg) M {
 	for _, r := range regs {
 		rs = append(rs, r.ToJSON())
 	}
-	return M{"desc": d.JSON(), "regs": rs}
+	return M{"desc": d.JSON(), "regs": rs, "hist": []M{}}
+}
+
+// Step is one call on the one API value of a history case: a registration change or Validate.
+type Step struct{ Act, Arg, Arg2 string }
+
+func histDescriptor(d Desc, steps []Step) M {
+	hs := make([]M, 0, len(steps))
+	for _, st := range steps {
+		hs = append(hs, M{"act": st.Act, "arg": trace.B(st.Arg), "arg2": trace.B(st.Arg2)})
+	}
+	return M{"desc": d.JSON(), "regs": []M{}, "hist": hs}
+}
+
+// history: the calls that register exactly what the description needs, in random order, with Validate in between,
+// followed by a tail that keeps changing the registrations (JSON defaults on/off, extra and repeated registrations),
+// each change followed by Validate - "Validate reflects the current registrations".
+func history(c *drv.Ctx, d Desc) []Step {
+	r := c.Rng
+	var steps []Step
+	var regs []Step
+	for _, m := range d.needConsumes() {
+		regs = append(regs, Step{"RegisterConsumer", m, ""})
+	}
+	for _, m := range d.needProduces() {
+		regs = append(regs, Step{"RegisterProducer", m, ""})
+	}
+	for _, o := range d.Ops {
+		regs = append(regs, Step{"RegisterOperation", o.Method, o.Path})
+	}
+	for _, a := range d.needSchemes() {
+		regs = append(regs, Step{"RegisterAuth", a, ""})
+	}
+	r.Shuffle(len(regs), func(i, j int) { regs[i], regs[j] = regs[j], regs[i] })
+	if r.Intn(2) == 0 {
+		steps = append(steps, Step{Act: "WithoutJSONDefaults"})
+	}
+	for _, st := range regs {
+		steps = append(steps, st)
+		if r.Intn(3) == 0 {
+			steps = append(steps, Step{Act: "Validate"})
+		}
+	}
+	steps = append(steps, Step{Act: "Validate"})
+	extras := []Step{{Act: "WithJSONDefaults"}, {Act: "WithoutJSONDefaults"}, {Act: "WithJSONDefaults"}, {Act: "WithoutJSONDefaults"},
+		{"RegisterConsumer", jsonMime, ""}, {"RegisterProducer", jsonMime, ""}, {"RegisterConsumer", "text/plain", ""},
+		{"RegisterProducer", "Application/XML", ""}, {"RegisterOperation", "put", "/c"}, {"RegisterAuth", "z", ""}}
+	extras = append(extras, regs...)
+	for k := 3 + r.Intn(6); k > 0; k-- {
+		steps = append(steps, extras[r.Intn(len(extras))], Step{Act: "Validate"})
+		if r.Intn(4) == 0 {
+			steps = append(steps, Step{Act: "Validate"})
+		}
+	}
+	return steps
 }
 
 // ---- generation ------------------------------------------------------------------
@@ -467,6 +522,21 @@ func generate(c *drv.Ctx) {
 		}
 		c.Case(descriptor(d, regs))
 	}
+	// (iv) histories of one API value: registration changes interleaved with Validate
+	nHist := 400
+	if thorough {
+		nHist = 1500
+	}
+	for k := 0; k < nHist; k++ {
+		var d Desc
+		if k%2 == 0 {
+			d = Desc{Consumes: globalMedia[c.Rng.Intn(3)], Produces: globalMedia[c.Rng.Intn(3)], Sec: globalSec[c.Rng.Intn(2)],
+				Defs: defs[c.Rng.Intn(3)], Ops: []Op{opPool[c.Rng.Intn(len(opPool))]}}
+		} else {
+			d = randomDesc(c)
+		}
+		c.Case(histDescriptor(d, history(c, d)))
+	}
 }
 
 var mediaPool = []string{jsonMime, xmlMime, "text/plain", "application/x-yaml", "Application/XML", "text/plain; charset=utf-8", "*/*", "image/*", "TEXT/csv"}
@@ -560,8 +630,29 @@ func stubProducer() runtime.Producer {
 	})
 }
 
-func acceptAll() runtime.Authenticator {
-	return runtime.AuthenticatorFunc(func(interface{}) (bool, interface{}, error) { return true, "principal", nil })
+// credAuth accepts exactly the credentials of its own scheme: the header X-Cred-<scheme>: ok.
+// Without that header the scheme does not apply to the request.
+func credAuth(scheme string) runtime.Authenticator {
+	return runtime.AuthenticatorFunc(func(params interface{}) (bool, interface{}, error) {
+		sr, ok := params.(*security.ScopedAuthRequest)
+		if !ok || sr.Request == nil {
+			return false, nil, nil
+		}
+		if sr.Request.Header.Get("X-Cred-"+scheme) != "ok" {
+			return false, nil, nil
+		}
+		return true, "principal-" + scheme, nil
+	})
+}
+
+func (d Desc) securityFor(o Op) [][]string {
+	if o.Sec.Present {
+		return o.Sec.Alts
+	}
+	if d.Sec.Present {
+		return d.Sec.Alts
+	}
+	return nil
 }
 
 func (d Desc) consumesFor(o Op) []string {
@@ -584,52 +675,53 @@ func execute(c *drv.Ctx, dd M) bool {
 	for _, rv := range drv.List(dd["regs"]) {
 		regs = append(regs, regFromJSON(rv))
 	}
+	var hist []Step
+	if hv, ok := dd["hist"]; ok {
+		for _, sv := range drv.List(hv) {
+			sm := drv.Map(sv)
+			hist = append(hist, Step{Act: drv.Str(sm["act"]), Arg: trace.Str(sm["arg"]), Arg2: trace.Str(sm["arg2"])})
+		}
+	}
 	raw := d.Swagger()
 	doc, err := loads.Analyzed(json.RawMessage(raw), "")
 	if err != nil {
 		panic(fmt.Sprintf("c19: generated document rejected: %v\n%s", err, raw))
 	}
+	ran := 0
+	handler := runtime.OperationHandlerFunc(func(interface{}) (interface{}, error) {
+		ran++
+		return "ok", nil
+	})
+	consumer := func(m string) runtime.Consumer {
+		if strings.EqualFold(m, jsonMime) {
+			return runtime.JSONConsumer()
+		}
+		return stubConsumer()
+	}
+	producer := func(m string) runtime.Producer {
+		if strings.EqualFold(m, jsonMime) {
+			return runtime.JSONProducer()
+		}
+		return stubProducer()
+	}
 	passed, failed := false, false
-	for ri, rg := range regs {
-		api := untyped.NewAPI(doc)
-		if !rg.JSON {
-			api.WithoutJSONDefaults()
-		}
-		for _, m := range rg.Consumers {
-			if strings.EqualFold(m, jsonMime) {
-				api.RegisterConsumer(m, runtime.JSONConsumer())
-			} else {
-				api.RegisterConsumer(m, stubConsumer())
-			}
-		}
-		for _, m := range rg.Producers {
-			if strings.EqualFold(m, jsonMime) {
-				api.RegisterProducer(m, runtime.JSONProducer())
-			} else {
-				api.RegisterProducer(m, stubProducer())
-			}
-		}
-		ran := 0
-		for _, o := range rg.Ops {
-			api.RegisterOperation(o.Method, o.Path, runtime.OperationHandlerFunc(func(interface{}) (interface{}, error) {
-				ran++
-				return "ok", nil
-			}))
-		}
-		for _, a := range rg.Auths {
-			api.RegisterAuth(a, acceptAll())
-		}
+	// Validate() on api, recorded against registration ri (0 = the history's API value as it stands)
+	check := func(api *untyped.API, ri int) bool {
 		ok, section, missReg, missSpec, panicked := validate(api)
-		c.W.Event("validate", M{"ri": ri + 1, "ok": ok, "section": section, "missing_reg": trace.BB(missReg),
+		c.W.Event("validate", M{"ri": ri, "ok": ok, "section": section, "missing_reg": trace.BB(missReg),
 			"missing_spec": trace.BB(missSpec), "panic": panicked})
-		if !ok {
+		if ok {
+			passed = true
+		} else {
 			failed = true
-			continue
 		}
-		passed = true
-		// serving consequence: well-formed requests to every operation of the validated API
+		return ok
+	}
+	// serving consequence: well-formed requests to every operation of a validated API - every declared Content-Type x
+	// Accept, and for secured operations one request per alternative carrying valid credentials for exactly that alternative
+	serveAll := func(api *untyped.API, ri int, full bool) {
 		var h http.Handler
-		if ri%8 == 0 {
+		if full {
 			h = middleware.Serve(doc, api) // the full API handler (spec + docs + routes)
 		} else {
 			h = middleware.NewContext(doc, api, nil).RoutesHandler(nil)
@@ -643,14 +735,89 @@ func execute(c *drv.Ctx, dd M) bool {
 				}
 			}
 			accepts := append([]string{""}, d.producesFor(o)...)
-			for _, ct := range ctypes {
-				for _, ac := range accepts {
-					ran = 0
-					status, body, pmsg := serve(h, o, ct, ac)
-					c.W.Event("serve", M{"ri": ri + 1, "op": oi + 1, "ctype": trace.B(ct), "accept": trace.B(ac),
-						"status": status, "ran": ran, "class": classify(status, body, pmsg, ran)})
+			alts := d.securityFor(o)
+			altIdx := []int{0}
+			if len(alts) > 0 {
+				altIdx = altIdx[:0]
+				for i := range alts {
+					altIdx = append(altIdx, i+1)
 				}
 			}
+			for _, ct := range ctypes {
+				for _, ac := range accepts {
+					for _, ai := range altIdx {
+						var creds []string
+						if ai > 0 {
+							creds = alts[ai-1]
+						}
+						ran = 0
+						status, body, pmsg := serve(h, o, ct, ac, creds)
+						c.W.Event("serve", M{"ri": ri, "op": oi + 1, "ctype": trace.B(ct), "accept": trace.B(ac), "alt": ai,
+							"status": status, "ran": ran, "class": classify(status, body, pmsg, ran)})
+					}
+				}
+			}
+		}
+	}
+	for ri, rg := range regs {
+		api := untyped.NewAPI(doc)
+		if !rg.JSON {
+			api.WithoutJSONDefaults()
+		}
+		for _, m := range rg.Consumers {
+			api.RegisterConsumer(m, consumer(m))
+		}
+		for _, m := range rg.Producers {
+			api.RegisterProducer(m, producer(m))
+		}
+		for _, o := range rg.Ops {
+			api.RegisterOperation(o.Method, o.Path, handler)
+		}
+		for _, a := range rg.Auths {
+			api.RegisterAuth(a, credAuth(a))
+		}
+		if check(api, ri+1) {
+			serveAll(api, ri+1, ri%8 == 0)
+		}
+	}
+	if len(hist) > 0 {
+		// one API value over time
+		api := untyped.NewAPI(doc)
+		lastOK := false
+		for _, st := range hist {
+			if st.Act == "Validate" {
+				lastOK = check(api, 0)
+				continue
+			}
+			panicked := false
+			func() {
+				defer func() {
+					if e := recover(); e != nil {
+						panicked = true
+					}
+				}()
+				switch st.Act {
+				case "RegisterConsumer":
+					api.RegisterConsumer(st.Arg, consumer(st.Arg))
+				case "RegisterProducer":
+					api.RegisterProducer(st.Arg, producer(st.Arg))
+				case "RegisterOperation":
+					api.RegisterOperation(st.Arg, st.Arg2, handler)
+				case "RegisterAuth":
+					api.RegisterAuth(st.Arg, credAuth(st.Arg))
+				case "WithJSONDefaults":
+					api.WithJSONDefaults()
+				case "WithoutJSONDefaults":
+					api.WithoutJSONDefaults()
+				default:
+					panic("c19: unknown step " + st.Act)
+				}
+			}()
+			c.W.Event("do", M{"act": st.Act, "arg": trace.B(st.Arg), "arg2": trace.B(st.Arg2), "panic": panicked})
+			lastOK = false
+		}
+		if lastOK {
+			serveAll(api, 0, false)
 		}
 	}
 	return passed && failed
@@ -672,7 +839,7 @@ func validate(api *untyped.API) (ok bool, section string, missReg, missSpec []st
 	return false, "other-error", []string{}, []string{}, false
 }
 
-func serve(h http.Handler, o Op, ctype, accept string) (status int, body string, panicMsg string) {
+func serve(h http.Handler, o Op, ctype, accept string, creds []string) (status int, body string, panicMsg string) {
 	var rd io.Reader
 	if o.Body && ctype != "" {
 		rd = strings.NewReader(`{"a":1}`)
@@ -684,8 +851,9 @@ func serve(h http.Handler, o Op, ctype, accept string) (status int, body string,
 	if accept != "" {
 		req.Header.Set("Accept", accept)
 	}
-	req.Header.Set("X-k", "secret")
-	req.SetBasicAuth("u", "p")
+	for _, n := range creds {
+		req.Header.Set("X-Cred-"+n, "ok")
+	}
 	w := httptest.NewRecorder()
 	func() {
 		defer func() {
